@@ -151,8 +151,12 @@ class Transformer(Visitor):
         # Then recurse over the new nodes
         visited = tuple(self.visit(i, **kwargs) for i in o)
 
-        # Strip empty sublists/subtuples or None entries
-        return tuple(i for i in visited if i is not None and as_tuple(i))
+        # Strip None entries and the empty results of dissolved nodes, but keep
+        # empty sub-tuples that were part of the input (e.g., an empty CASE body)
+        return tuple(
+            v for i, v in zip(o, visited)
+            if v is not None and (as_tuple(v) or isinstance(i, (tuple, list)))
+        )
 
     visit_list = visit_tuple
 
@@ -256,11 +260,17 @@ class NestedTransformer(Transformer):
         # Recurse to children first !
         visited = tuple(self.visit(i, **kwargs) for i in o)
 
-        # Inject any matching sub-set of nodes into current tuple
-        visited = self._inject_tuple_mapping(visited)
+        # Strip None entries and the empty results of dissolved nodes, but keep
+        # empty sub-tuples that were part of the input (e.g., an empty CASE body)
+        visited = tuple(
+            v for i, v in zip(o, visited)
+            if v is not None and (as_tuple(v) or isinstance(i, (tuple, list)))
+        )
 
-        # Strip empty sublists/subtuples or None entries
-        return tuple(i for i in visited if i is not None and as_tuple(i))
+        # Inject any matching sub-set of nodes into current tuple
+        # (window replacement pads tuples shorter than a multi-node key with None)
+        visited = self._inject_tuple_mapping(visited)
+        return tuple(i for i in visited if i is not None)
 
     visit_list = visit_tuple
 
